@@ -34,6 +34,7 @@ PLATFORM_RENAMES = ["-D%s=%s" % kv for kv in [
     ("pthread_create", "vp_create"), ("pthread_join", "vp_join"), ("pthread_detach", "vp_detach"),
     ("pthread_self", "vp_self"), ("clock_gettime", "vp_clock_gettime"), ("nanosleep", "vp_nanosleep"),
     ("usleep", "vp_usleep"), ("sched_yield", "vp_sched_yield")]]
+EDGE_HOOK = ["-fsanitize-coverage=trace-pc-guard"]
 FILE_RENAMES = ["-Dopen=vp_open", "-Dclose=vp_close", "-Dpwrite=vp_pwrite", "-Dflock=vp_flock", "-Dunlink=vp_unlink"]
 
 
@@ -92,16 +93,19 @@ def _rt_sources(t):
     t.verif("harness/rt/rt.cpp")
     t.verif("harness/rt/vmock.cpp")
     t.verif("engine/vsim/vsim.cpp")
-    t.repo(RT + "acquire.c")
-    t.repo(RT + "runtime/source.c")
-    t.repo(RT + "runtime/sink.c", ["-Dchannel_new=vh_channel_new"])
-    t.repo(RT + "runtime/filter.c", ["-Dchannel_new=vh_channel_new"])
+    # fine profile: every basic-block edge of the runtime, HAL and property code can be a preemption
+    # point (engine/vsim: __sanitizer_cov_trace_pc_guard); platform.c and the logger are not instrumented
+    E = EDGE_HOOK
+    t.repo(RT + "acquire.c", E)
+    t.repo(RT + "runtime/source.c", E)
+    t.repo(RT + "runtime/sink.c", ["-Dchannel_new=vh_channel_new"] + E)
+    t.repo(RT + "runtime/filter.c", ["-Dchannel_new=vh_channel_new"] + E)
     for f in ["runtime/channel.c", "runtime/vfslice.c", "runtime/frame_iterator.c", "runtime/throttler.c"]:
-        t.repo(RT + f)
+        t.repo(RT + f, E)
     for f in ["camera.c", "storage.c", "driver.c", "loader.c", "device.manager.cpp"]:
-        t.repo(CORE + "acquire-device-hal/device/hal/" + f)
+        t.repo(CORE + "acquire-device-hal/device/hal/" + f, E)
     for f in ["storage.c", "components.c", "device.c"]:
-        t.repo(CORE + "acquire-device-properties/device/props/" + f)
+        t.repo(CORE + "acquire-device-properties/device/props/" + f, E)
     t.repo(CORE + "acquire-core-platform/linux/platform.c", PLATFORM_RENAMES)
     t.repo(CORE + "acquire-core-logger/logger.c")
 
